@@ -70,8 +70,11 @@ func (api *HTTP) handlePostMessage(w http.ResponseWriter, r *http.Request, sessi
 
 	// IRC messages are separated by the newline character, so ensure the
 	// message does not contain any newlines.
+	// One POST is one IRC line: cut at the first line terminator. A bare CR
+	// or a NUL byte ends the line just like LF does, otherwise the remainder
+	// would be relayed verbatim and received as a second line by clients.
 	data := req.Data
-	if idx := strings.IndexByte(data, '\n'); idx > -1 {
+	if idx := strings.IndexAny(data, "\n\r\x00"); idx > -1 {
 		data = data[:idx]
 	}
 	msg := &robust.Message{
